@@ -10,6 +10,7 @@ import itertools
 import math
 
 from mc import core
+from mc import alphabets as AB
 from mc.enc import path2j, j2path, outcome
 
 from svgpathtools import Line, QuadraticBezier, CubicBezier, Arc, Path
@@ -87,7 +88,8 @@ def t_alphabet(b):
 
 
 def check_path(segs, case, acc, Ts=None, pair_max_n=3, path_obj=None):
-    p = Path(*segs) if path_obj is None else path_obj
+    p = AB.derive_path(Path(*segs)) if path_obj is None else path_obj
+    segs = list(p)          # (equal by value to what was passed in; identity matters for continuous_subpaths below)
     n = len(segs)
     ls, tot, fr, b = reference(segs)
     size = max(abs(q) for s in segs for q in (s.start, s.end)) + tot
@@ -235,6 +237,7 @@ def shards(tier, seed):
     out = [{'what': 'words', 'first': i, 'second': j} for i in range(len(POOL) - 1) for j in range(-1, len(POOL))]
     out.append({'what': 'equal'})
     out.append({'what': 'arc_approximation'})
+    out += AB.provenance_shards(out, tier, lambda d: d['what'] == 'words', key='pprov')
     return out
 
 
